@@ -1,13 +1,15 @@
 package symgo
 
 import (
+	"bytes"
 	"encoding/json"
 	"fmt"
 	"go/types"
+	"math"
+	"net/mail"
 	"os"
 	"path"
 	"path/filepath"
-	"net/mail"
 	"regexp"
 	"sort"
 	"strconv"
@@ -27,72 +29,92 @@ var globalModels map[string]func(in *Interp, g *ssa.Global) Value
 
 func init() {
 	externals = map[string]ExtFn{
-		"fmt.Sprintf":                  extSprintf,
-		"fmt.Errorf":                   extErrorf,
-		"fmt.Sprint":                   extSprint,
-		"errors.New":                   extErrorsNew,
-		"errors.Is":                    extErrorsIs,
-		"errors.As":                    extErrorsAs,
-		"errors.Unwrap":                extErrorsUnwrap,
-		"strings.Index":                extIndex,
-		"bytes.Index":                  extIndex,
-		"strings.IndexByte":            extIndexByte,
-		"bytes.IndexByte":              extIndexByte,
-		"internal/bytealg.IndexByte":   extIndexByte,
+		"fmt.Sprintf":                      extSprintf,
+		"fmt.Errorf":                       extErrorf,
+		"fmt.Sprint":                       extSprint,
+		"errors.New":                       extErrorsNew,
+		"errors.Is":                        extErrorsIs,
+		"errors.As":                        extErrorsAs,
+		"errors.Unwrap":                    extErrorsUnwrap,
+		"strings.Index":                    extIndex,
+		"bytes.Index":                      extIndex,
+		"strings.IndexByte":                extIndexByte,
+		"bytes.IndexByte":                  extIndexByte,
+		"internal/bytealg.IndexByte":       extIndexByte,
 		"internal/bytealg.IndexByteString": extIndexByte,
-		"strings.Count":                extCount,
-		"bytes.Count":                  extCount,
-		"bytes.Equal":                  extBytesEqual,
-		"bytes.Compare":                extBytesCompare,
-		"strings.Compare":              extBytesCompare,
-		"internal/bytealg.MakeNoZero":  extMakeNoZero,
-		"(*strings.Builder).WriteString": extBuilderWriteString,
-		"(*strings.Builder).WriteByte":   extBuilderWriteByte,
-		"(*strings.Builder).Write":       extBuilderWrite,
-		"(*strings.Builder).WriteRune":   extBuilderWriteRune,
-		"(*strings.Builder).String":      extBuilderString,
-		"(*strings.Builder).Len":         extBuilderLen,
-		"(*strings.Builder).Grow":        extNop,
-		"(*strings.Builder).Reset":       extBuilderReset,
-		"strconv.FormatUint":           extFormatUint,
-		"strconv.FormatInt":            extFormatInt,
-		"strconv.Itoa":                 extItoa,
-		"strconv.cloneString":          extIdentity,
-		"internal/stringslite.Clone":   extIdentity,
-		"strings.Clone":                extIdentity,
-		"strconv.Quote":                extQuote,
-		"(*sync.Once).Do":              extOnceDo,
-		"(*sync.Pool).Get":             extPoolGet,
-		"(*sync.Pool).Put":             extPoolPut,
-		"(*sync.Mutex).Lock":           extNop,
-		"(*sync.Mutex).Unlock":         extNop,
-		"(*sync.RWMutex).Lock":         extNop,
-		"(*sync.RWMutex).Unlock":       extNop,
-		"(*sync.RWMutex).RLock":        extNop,
-		"(*sync.RWMutex).RUnlock":      extNop,
+		"strings.Count":                    extCount,
+		"bytes.Count":                      extCount,
+		"bytes.Equal":                      extBytesEqual,
+		"bytes.Compare":                    extBytesCompare,
+		"strings.Compare":                  extBytesCompare,
+		"internal/bytealg.MakeNoZero":      extMakeNoZero,
+		"(*strings.Builder).WriteString":   extBuilderWriteString,
+		"(*strings.Builder).WriteByte":     extBuilderWriteByte,
+		"(*strings.Builder).Write":         extBuilderWrite,
+		"(*strings.Builder).WriteRune":     extBuilderWriteRune,
+		"(*strings.Builder).String":        extBuilderString,
+		"(*strings.Builder).Len":           extBuilderLen,
+		"(*strings.Builder).Grow":          extNop,
+		"(*strings.Builder).Reset":         extBuilderReset,
+		"strconv.FormatUint":               extFormatUint,
+		"strconv.FormatInt":                extFormatInt,
+		"strconv.Itoa":                     extItoa,
+		"strconv.cloneString":              extIdentity,
+		"internal/stringslite.Clone":       extIdentity,
+		"strings.Clone":                    extIdentity,
+		"strconv.Quote":                    extQuote,
+		"(*sync.Once).Do":                  extOnceDo,
+		"(*sync.Pool).Get":                 extPoolGet,
+		"(*sync.Pool).Put":                 extPoolPut,
+		"(*sync.Mutex).Lock":               extNop,
+		"(*sync.Mutex).Unlock":             extNop,
+		"(*sync.RWMutex).Lock":             extNop,
+		"(*sync.RWMutex).Unlock":           extNop,
+		"(*sync.RWMutex).RLock":            extNop,
+		"(*sync.RWMutex).RUnlock":          extNop,
 		// fork-join model: goroutines have finished when they are started, Wait never blocks
-		"(*sync.WaitGroup).Add":        extNop,
-		"(*sync.WaitGroup).Done":       extNop,
-		"(*sync.WaitGroup).Wait":       extNop,
-		"os.Stat":                      extOsStat,
-		"os.ReadFile":                  extOsReadFile,
-		"(*os.fileStat).IsDir":        extFileStatIsDir,
+		"(*sync.WaitGroup).Add":  extNop,
+		"(*sync.WaitGroup).Done": extNop,
+		"(*sync.WaitGroup).Wait": extNop,
+		"os.Stat":                extOsStat,
+		"os.ReadFile":            extOsReadFile,
+		"(*os.fileStat).IsDir":   extFileStatIsDir,
 		"github.com/jsightapi/jsight-schema-core/reader.Read": extReaderRead,
-		"runtime.KeepAlive":            extNop,
-		"sort.Slice":                   extSortSlice,
-		"sort.SliceStable":             extSortSlice,
-		"unicode.IsSpace":              extUnicodeIsSpace,
-		"regexp.MustCompile":           extRegexpMustCompile,
-		"regexp.Compile":               extRegexpCompile,
-		"(*regexp.Regexp).Match":       extRegexpMatch,
-		"(*regexp.Regexp).MatchString": extRegexpMatch,
-		"(*regexp.Regexp).String":      extRegexpString,
-		"time.Parse":                   extTimeParse,
-		"net/mail.ParseAddress":        extMailParseAddress,
+		"runtime.KeepAlive":                         extNop,
+		"sort.Slice":                                extSortSlice,
+		"sort.SliceStable":                          extSortSlice,
+		"unicode.IsSpace":                           extUnicodeIsSpace,
+		"regexp.MustCompile":                        extRegexpMustCompile,
+		"regexp.Compile":                            extRegexpCompile,
+		"(*regexp.Regexp).Match":                    extRegexpMatch,
+		"(*regexp.Regexp).MatchString":              extRegexpMatch,
+		"(*regexp.Regexp).String":                   extRegexpString,
+		"time.Parse":                                extTimeParse,
+		"net/mail.ParseAddress":                     extMailParseAddress,
 		"github.com/lucasjones/reggen.NewGenerator": extReggenNew,
-		"(*github.com/lucasjones/reggen.Generator).SetSeed": extReggenSetSeed,
+		"(*github.com/lucasjones/reggen.Generator).SetSeed":  extReggenSetSeed,
 		"(*github.com/lucasjones/reggen.Generator).Generate": extReggenGenerate,
-		"encoding/json.Unmarshal":      extJSONUnmarshal,
+		"encoding/json.Unmarshal":                            extJSONUnmarshal,
+		"encoding/json.Marshal":                              extJSONMarshal,
+		// floating point: concrete only (float64 values carry no terms)
+		"math.Pow":   func(in *Interp, fn *ssa.Function, a []Value) Value { return math.Pow(a[0].(float64), a[1].(float64)) },
+		"math.Abs":   func(in *Interp, fn *ssa.Function, a []Value) Value { return math.Abs(a[0].(float64)) },
+		"math.Floor": func(in *Interp, fn *ssa.Function, a []Value) Value { return math.Floor(a[0].(float64)) },
+		"math.Ceil":  func(in *Interp, fn *ssa.Function, a []Value) Value { return math.Ceil(a[0].(float64)) },
+		"math.Trunc": func(in *Interp, fn *ssa.Function, a []Value) Value { return math.Trunc(a[0].(float64)) },
+		"math.Round": func(in *Interp, fn *ssa.Function, a []Value) Value { return math.Round(a[0].(float64)) },
+		"math.Mod":   func(in *Interp, fn *ssa.Function, a []Value) Value { return math.Mod(a[0].(float64), a[1].(float64)) },
+		"math.Log10": func(in *Interp, fn *ssa.Function, a []Value) Value { return math.Log10(a[0].(float64)) },
+		"math.Sqrt":  func(in *Interp, fn *ssa.Function, a []Value) Value { return math.Sqrt(a[0].(float64)) },
+		"math.IsNaN": func(in *Interp, fn *ssa.Function, a []Value) Value { return mkBool(math.IsNaN(a[0].(float64))) },
+		"math.IsInf": func(in *Interp, fn *ssa.Function, a []Value) Value {
+			return mkBool(math.IsInf(a[0].(float64), int(int64(a[1].(Sc).C))))
+		},
+		"math.Float64bits": func(in *Interp, fn *ssa.Function, a []Value) Value { return Sc{C: math.Float64bits(a[0].(float64))} },
+		"math.Float64frombits": func(in *Interp, fn *ssa.Function, a []Value) Value {
+			return math.Float64frombits(in.concretize(a[0].(Sc), 64, "Float64frombits"))
+		},
+		"encoding/json.MarshalIndent":       extJSONMarshalIndent,
 		"(*regexp.Regexp).ReplaceAllString": extRegexpReplaceAllString,
 	}
 	if false {
@@ -101,7 +123,7 @@ func init() {
 		externals["path/filepath.Clean"] = extFilepathClean
 	}
 	globalModels = map[string]func(in *Interp, g *ssa.Global) Value{
-		"os.ErrNotExist": func(in *Interp, g *ssa.Global) Value { return in.errNotExist() },
+		"os.ErrNotExist":    func(in *Interp, g *ssa.Global) Value { return in.errNotExist() },
 		"io/fs.ErrNotExist": func(in *Interp, g *ssa.Global) Value { return in.errNotExist() },
 	}
 }
@@ -864,14 +886,28 @@ var harnessNames = map[string]ExtFn{
 	"vFile":     hFile,
 	"vDir":      hDir,
 	"vSymbolic": func(in *Interp, fn *ssa.Function, args []Value) Value { return mkBool(true) },
-	"vFSLog":    hFSLog,
-	"vFSMark":   func(in *Interp, fn *ssa.Function, args []Value) Value { return nil },
-	"vCorpusFile": hCorpusFile,
-	"vParam":    hParam,
-	"vMapOrderSite": hMapOrderSite,
+	"vJSONValid": func(in *Interp, fn *ssa.Function, args []Value) Value {
+		bs, _ := args[0].([]Value)
+		b := []byte(in.needConcrete(strFromBytes(bs), "vJSONValid"))
+		return mkBool(json.Valid(b) && utf8.Valid(b))
+	},
+	"vJSONCompact": func(in *Interp, fn *ssa.Function, args []Value) Value {
+		bs, _ := args[0].([]Value)
+		b := []byte(in.needConcrete(strFromBytes(bs), "vJSONCompact"))
+		var out bytes.Buffer
+		if err := json.Compact(&out, b); err != nil {
+			return Str{S: "compact-error:" + err.Error()}
+		}
+		return Str{S: out.String()}
+	},
+	"vFSLog":         hFSLog,
+	"vFSMark":        func(in *Interp, fn *ssa.Function, args []Value) Value { return nil },
+	"vCorpusFile":    hCorpusFile,
+	"vParam":         hParam,
+	"vMapOrderSite":  hMapOrderSite,
 	"vMapOrderSites": func(in *Interp, fn *ssa.Function, args []Value) Value { return Sc{C: uint64(len(in.rangeSites))} },
-	"vPath":     func(in *Interp, fn *ssa.Function, args []Value) Value { return args[0] },
-	"vCleanup":  func(in *Interp, fn *ssa.Function, args []Value) Value { return nil },
+	"vPath":          func(in *Interp, fn *ssa.Function, args []Value) Value { return args[0] },
+	"vCleanup":       func(in *Interp, fn *ssa.Function, args []Value) Value { return nil },
 }
 
 func hParam(in *Interp, fn *ssa.Function, args []Value) Value {
